@@ -310,6 +310,9 @@ func mkEq(a, b *Term) *Term {
 	if termEq(a, b) {
 		return tTrue
 	}
+	if a.Sort.K == 'v' && ((a.Op == "ite" && b.isConst() && constLeaves(a, 0)) || (b.Op == "ite" && a.isConst() && constLeaves(b, 0))) {
+		return distribute(mkEq, a, b)
+	}
 	if a.Sort.K == 'b' {
 		if b.isConst() {
 			a, b = b, a
@@ -491,8 +494,32 @@ func mkInt2BV(bits int, x *Term) *Term {
 	return &Term{Op: "int2bv", Args: []*Term{x}, Sort: sortBV(bits), str: fmt.Sprintf("((_ int2bv %d) %s)", bits, x.SMT())}
 }
 
+// constLeaves reports whether t is a (nested) ite whose leaves are constants.
+func constLeaves(t *Term, depth int) bool {
+	if t.isConst() {
+		return true
+	}
+	return t.Op == "ite" && depth < 4 && constLeaves(t.Args[1], depth+1) && constLeaves(t.Args[2], depth+1)
+}
+
+// distribute pushes a binary operator with one constant operand into an ite
+// with constant leaves, so the result folds to a boolean combination of the
+// conditions.
+func distribute(f func(x, y *Term) *Term, a, b *Term) *Term {
+	if a.Op == "ite" && b.isConst() && constLeaves(a, 0) {
+		return mkIte(a.Args[0], distribute(f, a.Args[1], b), distribute(f, a.Args[2], b))
+	}
+	if b.Op == "ite" && a.isConst() && constLeaves(b, 0) {
+		return mkIte(b.Args[0], distribute(f, a, b.Args[1]), distribute(f, a, b.Args[2]))
+	}
+	return f(a, b)
+}
+
 func bvCmp(op string, a, b *Term) *Term {
 	bits := a.Sort.Bits
+	if (a.Op == "ite" && b.isConst() && constLeaves(a, 0)) || (b.Op == "ite" && a.isConst() && constLeaves(b, 0)) {
+		return distribute(func(x, y *Term) *Term { return bvCmp(op, x, y) }, a, b)
+	}
 	if a.isConst() && b.isConst() {
 		x, y := a.U, b.U
 		sx, sy := sext(x, bits), sext(y, bits)
